@@ -46,7 +46,8 @@ TRUSTED_BASE = [
     "membership) is read from the implementation's own run and handed to the model as input: the construction of a "
     "single repository's RGraph is property C06's subject; the oracle does not use it (it works from the raw histories); "
     "the component's tag -> build number step IS compared with the model (get_builds_numbers of every commit)",
-    "gen/C07_Consts.v: the clauses of ComponentBump.get_rbuilds_in_bump / is_trivial / the is_rbuild disjunction / the "
+    "gen/C07_Consts.v: the clauses of ComponentBump.get_rbuilds_in_bump (the statements that build excluded_iids, the pruning "
+    "test `cur_rbuild.iid in excluded_iids`, the DFS statements) / is_trivial / the is_rbuild disjunction / the "
     "cycle test / the route tests of finalize_build_tag_info / guess_major_minor_build_by_tag_substr's returns / the "
     "'?' fallback of get_saved_build_number are recognised in ak/ghist.py by harness/props/c07.py:gen_consts (ast, fail-closed)",
 ]
@@ -95,23 +96,51 @@ def gen_consts(repo):
     src = open(os.path.join(repo, "ak", "ghist.py")).read()
     tree = ast.parse(src)
     cb = _find_class(tree, "ComponentBump")
-    # --- get_rbuilds_in_bump: the only pruning test is `cur_rbuild.iid in self.from_rbuilds`
+    # --- get_rbuilds_in_bump: (1) excluded_iids = the from-builds and all their ancestors (work list + visited set),
+    #     (2) the DFS from to_rbuild whose only pruning test is `cur_rbuild.iid in excluded_iids`
     f = _find_func(cb, "get_rbuilds_in_bump")
+    flat = lambda n: _src(n).replace(" ", "").replace("\n", ";")
     ifs = [n for n in ast.walk(f) if isinstance(n, ast.If)]
-    prune = [n for n in ifs if "from_rbuilds" in _src(n.test)]
-    if len(prune) != 1:
-        raise ExtractError("get_rbuilds_in_bump: expected exactly one test mentioning from_rbuilds")
-    ptest = _src(prune[0].test).replace(" ", "")
-    if ptest == "cur_rbuild.iidinself.from_rbuilds":
+    old_prune = [n for n in ifs if "from_rbuilds" in _src(n.test)]
+    prune = [n for n in ifs if "cur_rbuild" in _src(n.test)]
+    if old_prune and [flat(n.test) for n in old_prune] == ["cur_rbuild.iidinself.from_rbuilds"] and len(prune) == 1 \
+            and not any("excluded" in flat(n) for n in f.body):
+        # the code before d037b67: prunes AT the from-builds only (the model no longer describes it: the proof
+        # obligation src_prune_ok fails and the correspondence disagrees on parallel component paths)
         prune_kind = "PruneAtFrom"
     else:
-        raise ExtractError(f"get_rbuilds_in_bump: unrecognised pruning test {ptest!r}")
+        if old_prune:
+            raise ExtractError("get_rbuilds_in_bump: a test mentions from_rbuilds; the model tests excluded_iids only")
+        if [flat(n.test) for n in prune] != ["cur_rbuild.iidinexcluded_iids"]:
+            raise ExtractError(f"get_rbuilds_in_bump: unrecognised pruning test(s) {[flat(n.test) for n in prune]}")
+        if not (len(prune[0].body) == 2 and flat(prune[0].body[0]) == "dfs_sp[-1]=cur_sp-1"
+                and isinstance(prune[0].body[1], ast.Continue) and not prune[0].orelse):
+            raise ExtractError("get_rbuilds_in_bump: an excluded build must be skipped (not entered, not reported)")
+        # the statements that build excluded_iids, in order, before the DFS; nothing else touches it or `todo`
+        top = [flat(n) for n in f.body if "excluded_iids" in _src(n) or "todo" in _src(n)]
+        want = ["excluded_iids=set()",
+                "todo=list(self.from_rbuilds.values())",
+                "whiletodo:;rbuild=todo.pop();ifrbuild.iidnotinexcluded_iids:;excluded_iids.add(rbuild.iid);"
+                "todo.extend(rbuild.parent_rbuilds.values())"]
+        if top[:3] != want or len(top) != 4 or not top[3].startswith("whiledfs_stack:"):
+            raise ExtractError(f"get_rbuilds_in_bump: unrecognised construction of excluded_iids: {top[:3]}")
+        uses = [n for n in ast.walk(f) if isinstance(n, ast.Name) and n.id == "excluded_iids"]
+        if len(uses) != 4:
+            raise ExtractError("get_rbuilds_in_bump: excluded_iids is used outside the recognised places")
+        if sum(1 for n in ast.walk(f) if isinstance(n, ast.Name) and n.id == "todo") != 4:
+            raise ExtractError("get_rbuilds_in_bump: the work list `todo` is used outside the recognised places")
+        prune_kind = "PruneAtFromAncestors"
     names = {n.id for n in ast.walk(f) if isinstance(n, ast.Name)} | {n.attr for n in ast.walk(f) if isinstance(n, ast.Attribute)}
     has_visited = any("visited" in x or "seen" in x or "ancestors" in x for x in names)
     if has_visited:
-        raise ExtractError("get_rbuilds_in_bump: a visited/ancestor set appeared; the model has none")
+        raise ExtractError("get_rbuilds_in_bump: a visited/ancestor set appeared in the DFS; the model's DFS has none")
     if "parent_rbuilds" not in names:
         raise ExtractError("get_rbuilds_in_bump: does not walk parent_rbuilds")
+    # the DFS enters the parents of a build that is not excluded, sorted by iid, and reports it after them
+    dfs = [flat(n) for n in ast.walk(f) if isinstance(n, ast.Assign) and flat(n).startswith(("parents=", "result_rbuilds[", "dfs_stack="))]
+    if sorted(dfs) != ["dfs_stack=[[self.to_rbuild]]", "parents=sorted(cur_rbuild.parent_rbuilds.values(),key=lambdarb:rb.iid)",
+                       "result_rbuilds[cur_rbuild.iid]=cur_rbuild"]:
+        raise ExtractError(f"get_rbuilds_in_bump: unrecognised DFS statements {dfs}")
     # --- is_trivial: `return self.to_rbuild.iid in self.from_rbuilds`
     f = _find_func(cb, "is_trivial")
     rets = [_src(n.value).replace(" ", "") for n in ast.walk(f) if isinstance(n, ast.Return) and n.value is not None]
@@ -179,7 +208,7 @@ def gen_consts(repo):
         raise ExtractError(f"get_saved_build_number: unrecognised fallback version {unk}")
     text = ("(* generated from ak/ghist.py by harness/props/c07.py -- do not edit *)\n"
             "From AK Require Import Common.Err.\nFrom Coq Require Import List.\nImport ListNotations.\n"
-            "Inductive prune_kind := PruneAtFrom.\n"
+            "Inductive prune_kind := PruneAtFrom | PruneAtFromAncestors.\n"
             "Inductive rb_clause := ClNew | ClBump | ClMerge.\n"
             f"Definition src_prune : prune_kind := {prune_kind}.\n"
             f"Definition src_is_rbuild : list rb_clause := [{'; '.join(known[c] for c in clauses)}].\n"
@@ -1139,20 +1168,30 @@ TECHNIQUE = ("Coq proofs (invariants of the DFS stack machine, induction over gr
              "clauses re-read from the source + independent reachability oracle")
 LEVEL_TEXT = ("Partial. FULL (unbounded, Coq): repo_order, repo_order_supply, repo_analysis, repo_cycle, repo_order_terminates "
               "(the ordering loop is modelled as the same stack machine; invariant + potential function; for every dependency "
-              "table and every duplicate-free supply list); bump_set (get_rbuilds_in_bump is duplicate free, always contains "
-              "anc*(to) minus anc*(from), and equals it IFF the from-builds separate the graph), bump_set_linear_history, "
+              "table and every duplicate-free supply list); bump_set_exact + bump_set_statement_holds (since the fix d037b67 "
+              "get_rbuilds_in_bump returns, for every component build graph, every to-build and EVERY set of from-builds, within "
+              "the model's fuel, a duplicate-free list of exactly anc*(to) minus anc*(from); the work-list loop that collects the "
+              "excluded builds is modelled with its visited set and proved by invariant + potential: excluded_set), bump_set_none, "
               "included_never_missing (every history), bump_from, bump_reported, consts_ok + tag_routes_ok (clauses re-read from "
               "the source), tag_build_number / release_tag_pin (a release tag is build M.m.n for every M, m, n - 0 included - "
               "and is found by exactly the pin M.m.n), builds_numbers_complete, build_number_order (BuildNumData.cmp is "
               "lexicographic on numbers, numbers below '?', total). "
-              "REFUTED for the current code (known, open findings): bump_set_statement and included_first_statement "
-              "(bump_set_refuted, included_first_refuted, witness of DESIGN.md section 7 run through the whole model). "
-              "PARTIAL: included_first_partial - one parent branch whose reported builds form a chain over a linear component "
-              "history records a component build at exactly the first build whose pin contains it; that _read_branch produces "
-              "such chains on linear parent histories is tested by the correspondence (0 disagreements on ~2000 quick / ~15500 "
-              "thorough generated two-repository histories incl. merges, several branches, unbuilt heads, matching parent commits), "
-              "not proved. The clause 'first build of each parent branch' for histories with parallel sub-branches is tested "
-              "only (independent reachability oracle on the raw histories).")
+              "REFUTED for the current code (known, open finding included-at-again-after-pin-left): included_first_statement "
+              "(included_first_refuted, included_first_witness: component 1.1.1 <- {1.1.5 || 1.1.6} <- 1.1.7, pins 1.1.5, 1.1.6, 1.1.7 run "
+              "through the whole model; pins grow in build number but not in the ancestor order). The former refutation "
+              "bump_set_refuted (finding included-at-twice-parallel-path) is gone: its witness now is the Example "
+              "included_first_fixed_ex / bump_set_ex with the exact sets, and the finding is a strict violation if it reappears. "
+              "PARTIAL: included_first_partial (registration loop) and included_first_guarded (report of the whole model) - for "
+              "every component build graph (parallel sub-branches, merges) and every shape of a parent branch (forks / merges of "
+              "reported builds, several branches with distinct names): if the builds of the branch are linked (from-builds of a "
+              "bump = to-builds of the parent builds' bumps, every parent build carries a bump) and successive pins are "
+              "ancestor-ordered in the component graph, a component build is recorded at a build iff that build's pin contains "
+              "it and no ancestor build's pin in the branch does. That the RGraph construction yields linked branches when every "
+              "commit pins the component is the local theorem bump_from + the correspondence (0 disagreements on ~2000 quick / "
+              "~15500 thorough generated two-repository histories incl. merges, several branches, unbuilt heads, matching parent "
+              "commits), not a global theorem; distinct keys / build numbers within a branch are guards. For pins that are not "
+              "ancestor-ordered the clause 'first build of each parent branch' is false (open finding) resp. tested only "
+              "(independent reachability oracle on the raw histories).")
 LEVEL_NOTE = ("Trusted: Coq kernel + vm_compute; fidelity of the hand model (checked by correspondence, not proved); the mock git "
               "objects; the component's RGraph taken from the implementation as model input.")
 DESIGN_REF = "DESIGN.md section 8, C07"
